@@ -30,6 +30,10 @@ Recovering == {"Select", "GreedyRange", "Peek", "Union"}
 RECURSIVE HasLenientTerminator(_)
 HasLenientTerminator(n) == LET m == Core(n)  ks == Kids(n) IN
     (m.k = "NullTerminated" /\ ~m.require) \/ \E i \in 1..Len(ks) : HasLenientTerminator(ks[i])
+\* a terminator that is looked at but left in the stream belongs to the next member's extent
+RECURSIVE HasNonConsumingTerminator(_)
+HasNonConsumingTerminator(n) == LET m == Core(n)  ks == Kids(n) IN
+    (m.k = "NullTerminated" /\ ~m.consume) \/ \E i \in 1..Len(ks) : HasNonConsumingTerminator(ks[i])
 \* no construct that absorbs a failure of its member (a stream fault inside it may legitimately be taken for "no match")
 NoRecover(n) == ~AnyNode(n, Recovering) /\ ~HasLenientTerminator(n)
 \* "without greedy, optional or look-ahead parts" (C06, truncation clause)
